@@ -52,6 +52,41 @@ def cases(rnd, n):
     return out
 
 
+def bp_cases(rnd, n):
+    """an aggregation whose goroutine is stalled while its small input buffer fills (then released): drop-raw must stay exact
+    and no point may be lost"""
+    out = []
+    for i in range(n):
+        prefix = rnd.choice(["web.", "srv.db", "x"])
+        lines = []
+        for k in range(rnd.randint(6, 40)):
+            nm = (prefix + "m%d" % rnd.randint(0, 3)) if rnd.random() < 0.6 else "other.m%d" % rnd.randint(0, 3)
+            lines.append(tg.hx("%s %d 100005" % (nm, rnd.randint(1, 9))))
+        out.append(("bp%d" % i, ["run %d %d %s %s" % (rnd.choice([0, 1, 2, 5]), rnd.choice([0, 1, 1]), tg.hx(prefix), " ".join(lines))]))
+    return out
+
+
+def bp_monitor(lines, out):
+    f = lines[0].split()
+    dropraw = f[2] == "1"
+    prefix = bytes.fromhex(f[3])
+    names = [bytes.fromhex(h).split()[0] for h in f[4:]]
+    nmatch = sum(1 for x in names if x.startswith(prefix))
+    if not out or out[0] == "hang":
+        return "dispatch did not finish after the stalled aggregator was released"
+    g = out[0].split()
+    raw, rawmatch, agg = int(g[1]), int(g[3]), int(g[5])
+    if agg != nmatch:
+        return "%d points match the aggregation's filter, the emitted counts add up to %d (points lost or counted twice under backpressure)" % (nmatch, agg)
+    if dropraw and rawmatch != 0:
+        return "drop-raw: %d raw metrics that the aggregation consumes reached the route while the aggregator was busy" % rawmatch
+    if dropraw and raw != len(names) - nmatch:
+        return "drop-raw: %d other metrics were sent, the route received %d" % (len(names) - nmatch, raw)
+    if not dropraw and (raw != len(names) or rawmatch != nmatch):
+        return "without drop-raw the route must receive all %d lines, it received %d" % (len(names), raw)
+    return None
+
+
 def run(ctx):
     ctx.assumptions += ["the wiring aggregator output -> Table.In is in cfg/imperatives (checked by the extractor fact on table.New and exercised by C20's harness)"]
     ctx.prepare()
@@ -62,5 +97,7 @@ def run(ctx):
     # vs the model rebuilt from the resulting configuration (anything remembered from before a change shows as a difference)
     ctx.stream("table-history", "table", tg.history_cases(ctx.rng("c11h"), ctx.scale(60, 1200), nagg=(1, 3), nroutes=(2, 5)), classify=classify, nontrivial=nontrivial,
                spec_exact=True, timeout=ctx.scale(600, 3000), removable=tg.HISTORY_REMOVABLE)
+    ctx.stream("aggregation-backpressure", "aggbp", bp_cases(ctx.rng("c11bp"), ctx.scale(16, 300)), model=False, monitor=bp_monitor, shrink=False,
+               timeout=ctx.scale(300, 3000), classify=lambda l, o: "dropraw=%s inbuf=%s" % (l[0].split()[2], l[0].split()[1]))
     ctx.stream("table-aggregations", "table", cases(ctx.rng("c11"), ctx.scale(200, 4000)), classify=classify, nontrivial=nontrivial, spec_exact=True,
                removable=lambda l: l.startswith(("in ", "inm ", "aggin ")))
